@@ -264,6 +264,18 @@ func (v *vc) intrinsic(fr *frame, st *state, instr ssa.Instruction, name string,
 		trust()
 		set(v.havocResults(st, sig, "str")...)
 		return true
+	case "(*time.Time).UnmarshalBinary":
+		// decodes 15 or 16 bytes into the receiver; on error the receiver is unspecified
+		trust()
+		if a := v.addrOf(fr, st, c.Args[0]); a != nil {
+			v.store(st, a, v.havoc("timedec", a.typ, st))
+		} else {
+			v.havocAll(st)
+		}
+		rs := v.havocResults(st, sig, "timedec")
+		v.fact(st, fmt.Sprintf("(=> (= %s nil_iface) (>= (s_len %s) 15))", rs[0], args[1]))
+		set(rs...)
+		return true
 	case "encoding/binary.Read":
 		trust()
 		var readVal string
@@ -520,7 +532,7 @@ func (v *vc) intrinsicMods(fr *frame, name string, c *ssa.CallCommon) (bool, []s
 	case "(encoding/binary.bigEndian).PutUint64", "(encoding/binary.bigEndian).PutUint32", "(encoding/binary.bigEndian).PutUint16":
 		h, _ := v.elemHeap(u8)
 		return true, []string{h}
-	case "sync/atomic.AddInt64", "sync/atomic.AddUint64", "sync/atomic.AddInt32", "sync/atomic.AddUint32", "sync/atomic.StoreInt64", "sync/atomic.StoreUint64", "sync/atomic.StoreInt32", "sync/atomic.StoreUint32":
+	case "(*time.Time).UnmarshalBinary", "sync/atomic.AddInt64", "sync/atomic.AddUint64", "sync/atomic.AddInt32", "sync/atomic.AddUint32", "sync/atomic.StoreInt64", "sync/atomic.StoreUint64", "sync/atomic.StoreInt32", "sync/atomic.StoreUint32":
 		m := newModSet()
 		v.ptrMods(fr, c.Args[0], m)
 		if m.all {
